@@ -26,3 +26,5 @@ def run(ck):
     sizes.resize_rules(ck, {"nint": "C02.R3"})
     ops.conversions(ck, "C16.R2")                     # the object returns the supplied value: read-back for inferred (also negative) n_frac
     fresh.no_class_state_writes(ck, "C20.R7")         # inference starts from the same state for every object
+    flags.inaccuracy_guard(ck, "C04.R2")                # "quantized and flagged inexact"
+    fresh.no_hidden_state(ck, "C20.R8")                  # results depend on the documented state only (no caches / memos)
